@@ -16,6 +16,7 @@ mod suite_f;
 mod suite_k;
 mod suite_p;
 mod suite_t;
+mod suite_z;
 
 use std::path::PathBuf;
 
@@ -61,6 +62,8 @@ fn main() {
                     v
                 }
                 "K" => suite_k::gen(&mut rng, &suite_k::Params { cases, max_ops }),
+                "Z" if std::env::var("VERIF_Z_SAMPLE").is_ok() => suite_z::sample_lines(),
+                "Z" => suite_z::gen(&mut rng, &suite_z::Params { cases, max_ops }),
                 "F" => suite_f::gen(&mut rng, &suite_f::Params { cases }),
                 "P" => suite_p::gen(&mut rng, &suite_p::Params { cases, big: max_ops }),
                 _ => {
@@ -89,6 +92,7 @@ fn main() {
                 "P" => suite_p::exec(&lines, &mut out),
                 "F" => suite_f::exec(&lines, &mut out, &scratch),
                 "K" => suite_k::exec(&lines, &mut out, &scratch),
+                "Z" => suite_z::exec(&lines, &mut out, &scratch),
                 "E" => suite_e::exec(&lines, &mut out, &scratch),
                 "L" => suite_e::exec_locks(&lines, &mut out, &scratch, &out_dir),
                 "X" => suite_e::exec_crash(&lines, &mut out, &scratch, std::path::Path::new(&ops_file), arg(&args, "--exhaustive").is_some()),
